@@ -2,7 +2,7 @@
 
 import random
 
-from harness import progs_calls
+from harness import probes, progs_alias, progs_calls
 from harness.common import Check
 from harness.e1corpus import Item, describe, run_items
 
@@ -19,6 +19,12 @@ def run(chk: Check, tier: str):
         depth = [1, 2, 2, 3, 3][i % 5] if tier == "quick" else [1, 2, 2, 3, 3, 3, 4][i % 7]
         prog, inputs = progs_calls.fam_calls(rnd, ninputs=8 if tier == "quick" else 10, depth=depth)
         items.append(Item(prog, inputs))
+    ntree = len(items)
+    for i in range(max(6, n // 6)):
+        # calls whose target address is symbolic: one frame per account the address may alias
+        prog, inputs = progs_alias.fam_alias(rnd)
+        items.append(Item(prog, inputs))
+    items += [it for it in probes.c01_probes() if it.key in ("probe:static-call-with-value",)]
     kinds = {}
     for i in range(0, len(items), 100):
         outs = run_items(items[i : i + 100], chk)
@@ -26,7 +32,7 @@ def run(chk: Check, tier: str):
         for o in outs:
             if not o.covered and not o.flagged and not o.skipped and not o.match.unevaluable:
                 chk.violation(f"{o.item.key}:uncovered", f"no reported path covers input {o.inp} of {o.item.key}", describe(o))
-    for it in items:
+    for it in items[:ntree]:
         for line in it.prog.meta["tree"].splitlines():
             k = line.strip().split("@")[0]
             kinds[k] = kinds.get(k, 0) + 1
